@@ -169,9 +169,7 @@ Inv_C11_MaskLowBelowN ==
     (Answered /\ q.k = "compute") => (MaskLow(q.n) < q.n /\ MaskHigh(q.n) >= q.n - 1 /\ MaskHigh(q.n) \div 2 < q.n)
 
 Inv_C11_SameShard ==
-    (Answered /\ q.k = "same") =>
-        /\ SameShardOK(res.same, res.sa, res.sb)
-        /\ ValidShard(q.n, QAddr(q.a), res.sa) /\ ValidShard(q.n, QAddr(q.b), res.sb)
+    (Answered /\ q.k = "same") => SameShardOK(res.same, res.sa, res.sb)
 
 \* determinism: every repetition of a query (other coordinator instances, other self shard ids, repeated
 \* calls) gives the same answer.  Trivially true of the specification (an operator is a function); the
